@@ -181,6 +181,16 @@ Section Cache.
     end.
 End Cache.
 
+(* ---- the pointwise deterministic subgraphs of the theorems: the answer to a request is a function
+   of its bytes -- per representation for entity requests (header and footer are the operation) *)
+Section Pointwise.
+  Variable answer : bytes -> bytes -> bytes -> json * list json.   (* header, footer, representation *)
+  Variable root_answer : bytes -> json * list json.                 (* whole input of a root fetch *)
+  Definition is_single (rq : request) : bool := match rq_reps rq with [] => true | _ => false end.
+  Definition pw_oracle (rq : request) : response :=
+    clean_response (fun _ rep => answer (rq_header rq) (rq_footer rq) rep) (fun _ => root_answer (rq_header rq)) rq (is_single rq).
+End Pointwise.
+
 (* ---- C16(b) specification: boolean checkers evaluated on the implementation's observables
    (upstream requests with their status / error count / Cache-Control values, the recording
    cache's log).  [*_seq] is the number of upstream requests of the client request made so far. *)
@@ -217,8 +227,16 @@ Definition refused_b (default : Z) (ups : list up_obs) (s : set_obs) : bool :=
   | None => false
   | Some u => match ttl (uo_cc u) default with None => false | Some _ => true end
   end.
-(* all_or_nothing: a lookup is followed by the full upstream request exactly when it was not a full hit *)
-Definition all_or_nothing_b (ups : list up_obs) (g : get_obs) : bool :=
-  let full := negb (go_err g) && Nat.eqb (length (go_found g)) (length (go_keys g)) in
-  let sent := existsb (fun u => Nat.eqb (uo_run u) (go_run g) && Nat.eqb (uo_seq u) (go_seq g) && keys_eqb (uo_keys u) (go_keys g)) ups in
-  Bool.eqb sent (negb full).
+(* all_or_nothing: a lookup that is not a full hit (miss, partial hit, Get error) is followed by the
+   upstream request for all its keys, and every upstream entity request follows such a lookup (a
+   full hit sends nothing).  Linked by (client request, number of upstream requests so far, keys). *)
+Definition full_hit (g : get_obs) : bool := negb (go_err g) && Nat.eqb (length (go_found g)) (length (go_keys g)).
+Definition same_point (u : up_obs) (g : get_obs) : bool :=
+  Nat.eqb (uo_run u) (go_run g) && Nat.eqb (uo_seq u) (go_seq g) && keys_eqb (uo_keys u) (go_keys g).
+Definition miss_sends_b (ups : list up_obs) (g : get_obs) : bool :=
+  full_hit g || existsb (fun u => same_point u g) ups.
+Definition sent_has_miss_b (gets : list get_obs) (u : up_obs) : bool :=
+  match uo_keys u with
+  | [] => true
+  | _ => existsb (fun g => negb (full_hit g) && same_point u g) gets
+  end.
